@@ -203,12 +203,17 @@ let handle (w : string list) : string =
     (* 'sys' is topic 0 of the model; it exists from the start and is never deleted *)
     st := Files.step !st (Files.OAddTopic (n_of_int 0)); "SYSLOAD ok"
   | ["AGE"; h] -> clock := !clock + int_of_string h; "AGE ok"
+  | ["P2P"; t; u1; u2; w1; w2] ->
+    (* a p2p topic and its two subscriptions; each party is given what the other grants by default (R and W included) *)
+    st := Files.step !st (Files.OAddTopic (n_of_string t));
+    members := ((t, u1), (mode_of_string w1, mode_of_string "JRWPA")) :: ((t, u2), (mode_of_string w2, mode_of_string "JRWPA")) :: !members;
+    "P2P ok"
   | ["MEMBER"; t; _; u; want; given] ->
     (* given: the topic's default for authenticated users (JRWPS) unless the owner sets it *)
     let g = if given = "-" then mode_of_string "JRWPS" else mode_of_string given in
     members := ((t, u), (mode_of_string want, g)) :: List.remove_assoc (t, u) !members;
     "MEMBER ok"
-  | ["PUBX"; _; a; t; k; tpls] ->
+  | ["PUBX"; _; a; t; k; _; tpls] ->
     (* Topic.saveAndBroadcastMessage + messagesMapper.Save (Sys/FilesSaveC16b.v) for the acting user a:
        modes from the subscription (none: 0, 0), the k-th adapter call fails *)
     let is_sys = (t = "sys") in
